@@ -272,7 +272,7 @@ func Run(c *verdict.Ctx) int {
 	c.Rule = "one case = an adversarial asynchronous prefix (random schedule and/or a scripted split-lock / commit-without-block strategy, faulty validators < 1/3) followed by the synchronous suffix; non-trivial = at the synchrony point some correct node is beyond round 0, locked, behind, or knows a commit without the block; distinct by (config, R*, locks, laggards, prefix kind)"
 	c.Assume("liveness restated as bounded progress under an idealised gossip layer (sim.Gossip) and logical time: timeouts fire only when nothing is in flight, lowest (height, round, step) first",
 		"bound R*+W+2 argued in DESIGN.md C03; W from ref.ProposerSchedule", "real timers, real reactor gossip and timeout growth are not exercised by this stage")
-	n := c.N(300, 10000)
+	n := c.N(600, 100000)
 	var wg sync.WaitGroup
 	jobs := make(chan int, 64)
 	for w := 0; w < runtime.NumCPU(); w++ {
